@@ -2,8 +2,21 @@ package main
 
 import "golang.org/x/tools/go/ssa"
 
-// conservationRules: C02-R1..R3 shared by C02, C03, C12, C10.
-func conservationRules(f *framing, rule string) []ssa.Value {
+// consOpts selects which conservation rules a property needs (each rule must
+// be a necessary condition of the property that includes it).
+type consOpts struct {
+	eat         bool // junk eater accumulates every byte
+	fetch       bool // fetcher accumulates every byte
+	returns     bool // every exit returns the whole buffer
+	fetchO      fetchOpts
+	decoderRaw  bool // decoder returns its whole input / prefix
+	exactCount  bool // L+6 bytes handed over and delivered
+}
+
+var consAll = consOpts{eat: true, fetch: true, returns: true, decoderRaw: true, exactCount: true}
+
+// conservationRules: C02-R1..R3, selectable.
+func conservationRules(f *framing, rule string, o consOpts) []ssa.Value {
 	pl := f.pl
 	// junk eater: initial accumulator = the fresh empty slice it makes
 	var eatInit []ssa.Value
@@ -14,7 +27,6 @@ func conservationRules(f *framing, rule string) []ssa.Value {
 			}
 		}
 	})
-	f.ruleAccumulator(rule+"-R1", pl.eat, eatInit)
 	// fetcher: initial accumulator = the junk eater's result
 	var fetchInit []ssa.Value
 	eachInstr(pl.fetch, func(ins ssa.Instruction) {
@@ -28,11 +40,30 @@ func conservationRules(f *framing, rule string) []ssa.Value {
 		f.c.Fail(rule+"-R1", "accumulator-roots", pl.fetch.Pos(), "unresolved", "frame buffer roots not found (junk eater result / fresh empty slice)")
 		return nil
 	}
-	f.ruleAccumulator(rule+"-R1", pl.fetch, fetchInit)
-	f.ruleFetchReturns(rule + "-R2")
-	high := f.ruleDecoderRawData(rule + "-R2")
-	f.ruleHelperPure(rule + "-R2")
-	f.ruleExactCount(rule+"-R2", high)
+	if o.eat {
+		f.ruleAccumulator(rule+"-R1", pl.eat, eatInit)
+	} else {
+		f.acc[pl.eat] = f.accumulatorsOnly(pl.eat, eatInit)
+	}
+	if o.fetch {
+		f.ruleAccumulator(rule+"-R1", pl.fetch, fetchInit)
+	} else {
+		f.acc[pl.fetch] = f.accumulatorsOnly(pl.fetch, fetchInit)
+	}
+	if o.returns {
+		f.ruleFetchReturns(rule+"-R2", o.fetchO)
+	}
+	var high []ssa.Value
+	if o.decoderRaw {
+		high = f.ruleDecoderRawData(rule + "-R2")
+	}
+	if o.exactCount {
+		if !o.decoderRaw {
+			high = f.prefixHighs()
+		}
+		f.ruleHelperPure(rule + "-R2")
+		f.ruleExactCount(rule+"-R2", high)
+	}
 	return high
 }
 
@@ -43,16 +74,16 @@ func checkC02(c *Ctx) {
 	if f == nil {
 		return
 	}
-	conservationRules(f, "C02")
+	conservationRules(f, "C02", consAll)
 	f.rulePushbackFIFO("C02-R4")
 	f.ruleStreamForward("C02-R5")
-	ruleCloseDiscipline(c, f.pl, "C02-R5")
-	ruleTerminationChain(c, f.pl, "C02-R5")
+	ruleStreamClose(c, f.pl, "C02-R5")
+	ruleStreamTermination(c, f.pl, "C02-R5")
 	ruleKahn(c, f.pl, "C02-R6")
 	c.MinInstances("C02-R1", 8)
 	c.MinInstances("C02-R2", 25)
 	c.MinInstances("C02-R4", 4)
-	c.MinInstances("C02-R5", 10)
+	c.MinInstances("C02-R5", 7)
 	c.MinInstances("C02-R6", 1)
 }
 
@@ -64,7 +95,7 @@ func checkC03(c *Ctx) {
 		return
 	}
 	f.ruleHelperGates("C03-R1")
-	conservationRules(f, "C03-R5")
+	conservationRules(f, "C03-R5", consAll)
 	f.ruleNoContentExit("C03-R2")
 	f.ruleJunkDelimiting("C03-R3")
 	f.ruleFetcherExits("C03-R3")
@@ -88,8 +119,10 @@ func checkC01(c *Ctx) {
 	f.ruleDecoderGates("C01-R2")
 	f.ruleCRCGate("C01-R4")
 	f.ruleFrameConstants("C01-R6")
-	// R7: stream path
-	conservationRules(f, "C01-R7")
+	// R7: stream path: typed messages reach the stream only as the decoder's result on the
+	// path where the leader was accepted
+	o := consOpts{returns: true, fetchO: fetchOpts{leaderOK: true, skipPairing: true}}
+	conservationRules(f, "C01-R7", o)
 	c.MinInstances("C01-R1", 8)
 	c.MinInstances("C01-R2", 14)
 	c.MinInstances("C01-R4", 4)
@@ -131,7 +164,9 @@ func checkC12(c *Ctx) {
 		c.Fail("C12-R1", "crc-failure:exit", pl.getMsg.Pos(), "unresolved", "no CRC-failure exit found in the decoder")
 	}
 	f.ruleNoContentExit("C12-R2")
-	conservationRules(f, "C12-R4")
+	// boundaries independent of content: exact count; the decoder's message is returned unchanged;
+	// no push-back other than the junk one
+	conservationRules(f, "C12-R4", consOpts{returns: true, decoderRaw: true, exactCount: true})
 	f.ruleCRCGate("C12-R4")
 	f.ruleStreamForward("C12-R3")
 	c.MinInstances("C12-R1", 1)
